@@ -147,3 +147,16 @@ Example C06_source_example :
     [[1000; 1001; 1002]; [1003; 1001; 1002]; [1000; 1004; 1002]]%N [PolLang.PI 1%Z; PolLang.PL [1001]%N] =
     (Ok (PolLang.PB true), [[1000; 1004; 1002]]%N).
 Proof. exact PolicyTie.src_example. Qed.
+
+Theorem C06_source_batch_update_all_or_nothing : forall sp pi tk l olds news v l',
+  PolLang.run PolicyGen.policy_gen (PolicyTie.mkE sp pi tk) PolicyTie.FUEL PolicyGen.m_update_policies l
+    [PolLang.PLL olds; PolLang.PLL news] = (v, l') -> v <> Ok (PolLang.PB true) -> l' = l.
+Proof. exact PolicyTie.src_batch_update_all_or_nothing. Qed.
+Print Assumptions C06_source_batch_update_all_or_nothing.
+
+Theorem C06_source_filtered_read : forall sp pi tk l fi vs,
+  PolLang.run PolicyGen.policy_gen (PolicyTie.mkE sp pi tk) PolicyTie.FUEL PolicyGen.m_get_filtered_policy l
+    [PolLang.PI (Z.of_nat fi); PolLang.PL vs] =
+  (match get_filtered l fi vs with Ok out => Ok (PolLang.PLL out) | Err c => Err c end, l).
+Proof. exact PolicyTie.src_filtered_read. Qed.
+Print Assumptions C06_source_filtered_read.
